@@ -65,6 +65,44 @@ let fen_of (p : position) : string = match get_fen p with Some s -> string_of_st
 let parse_fen ?(frc = false) (s : string) : position =
   match set_fen false frc (str_of_string s) with Some p -> p | None -> failwith ("model rejects FEN: " ^ s)
 
+(* ---------------------------------------------------------------- specification side *)
+let man_char (o : (colour * kind) option) : char =
+  match o with
+  | None -> '.'
+  | Some (c, k) ->
+    let ch = (match k with Pawn -> 'p' | Knight -> 'n' | Bishop -> 'b' | Rook -> 'r' | Queen -> 'q' | King -> 'k') in
+    (match c with White -> Char.uppercase_ascii ch | Black -> ch)
+
+let right_str (r : z option) = match r with None -> "-" | Some f -> string_of_z f
+
+let sstate_str (s : sstate) : string =
+  Printf.sprintf "%s/%s/%s%s%s%s/%s/%s/%s"
+    (String.of_seq (List.to_seq (List.map man_char s.s_board)))
+    (match s.s_turn with White -> "w" | Black -> "b")
+    (right_str s.s_wk) (right_str s.s_wq) (right_str s.s_bk) (right_str s.s_bq)
+    (match s.s_ep with None -> "-" | Some (f, r) -> string_of_z f ^ "," ^ string_of_z r)
+    (string_of_z s.s_half) (string_of_z s.s_full)
+
+let mv_key (m : mv) = (int_of_n m.m_from, int_of_n m.m_to, int_of_n m.m_promo)
+let sorted_mvs (l : mv list) : string =
+  mvs_str (List.sort (fun a b -> compare (mv_key a) (mv_key b)) l)
+
+let pos_of_dump (line : string) : position =
+  let tbl = Hashtbl.create 32 in
+  List.iter (fun tok -> match String.index_opt tok '=' with
+      | Some i -> Hashtbl.replace tbl (String.sub tok 0 i) (String.sub tok (i + 1) (String.length tok - i - 1))
+      | None -> ()) (String.split_on_char ' ' line);
+  let g k = Hashtbl.find tbl k in
+  let cr = g "cr" in
+  let cf = Array.of_list (String.split_on_char ',' (g "cf")) in
+  { c_us = n_of_string (g "us"); c_them = n_of_string (g "them"); pawns = n_of_string (g "P"); knights = n_of_string (g "N");
+    bishops = n_of_string (g "B"); rooks = n_of_string (g "R"); queens = n_of_string (g "Q"); kings = n_of_string (g "K");
+    halfmoves = z_of_string (g "hm"); fullmoves = z_of_string (g "fm"); turn = (g "turn" = "b");
+    ep = (if g "ep" = "-" then None else Some (n_of_string (g "ep")));
+    us_ksc = cr.[0] = '1'; us_qsc = cr.[1] = '1'; them_ksc = cr.[2] = '1'; them_qsc = cr.[3] = '1';
+    cf0 = n_of_string cf.(0); cf1 = n_of_string cf.(1); cf2 = n_of_string cf.(2); cf3 = n_of_string cf.(3);
+    hash = n_of_string (g "hash"); is_frc = (g "frc" = "1") }
+
 (* ---------------------------------------------------------------- magic *)
 let table = lazy (gen_table bISHOP_STUFF_BUILD rOOK_STUFF_BUILD bISHOP_SHIFT_BUILD rOOK_SHIFT_BUILD nOT_A_BUILD nOT_H_BUILD)
 
@@ -134,10 +172,15 @@ let handle (line : string) : string =
     let p = parse_fen f.(1) in
     let gs = move_generator p in
     let ms = List.map gen_mv_of gs in
-    Printf.sprintf "moves=%s count=%s caps=%s iscap=%s pieces=%s"
+    let st = abs_state p in
+    let sl = legal st in
+    Printf.sprintf "moves=%s count=%s caps=%s iscap=%s pieces=%s spec=%s speccaps=%s inD=%s chk=%s"
       (mvs_str ms) (string_of_n (count_moves p)) (mvs_str (legal_captures p))
       (String.concat "" (List.map (fun m -> b01 (is_capture p m.m_from m.m_to)) ms))
       (String.concat "" (List.map (fun (((pc, _), _), _) -> string_of_n pc) gs))
+      (sorted_mvs (List.map (enc p) sl))
+      (sorted_mvs (List.map (enc p) (List.filter (captures st) sl)))
+      (b01 (in_D p)) (b01 (in_check p))
   | "att" ->
     let p = parse_fen f.(1) in
     let mask = n_of_string f.(2) in
@@ -150,14 +193,15 @@ let handle (line : string) : string =
     let p = parse_fen f.(1) in
     if f.(2) = "null" then
       let q = makenull p in
-      Printf.sprintf "%s calc=%s valid=%s fen=%s" (dump_pos q) (string_of_n (calculate_hash q))
-        (b01 (validate q = None)) (fen_of q)
+      Printf.sprintf "%s calc=%s valid=%s fen=%s spec=%s abs=%s inD=%s" (dump_pos q) (string_of_n (calculate_hash q))
+        (b01 (validate q = None)) (fen_of q) (sstate_str (pass_turn (abs_state p))) (sstate_str (abs_state q)) (b01 (in_D q))
     else
       let m = mv_of_string f.(2) in
       let q = makemove true p m in
       let q0 = makemove false p m in
-      Printf.sprintf "%s pred=%s calc=%s nohash=%s valid=%s fen=%s" (dump_pos q) (string_of_n (predict_hash p m))
+      Printf.sprintf "%s pred=%s calc=%s nohash=%s valid=%s fen=%s spec=%s abs=%s inD=%s" (dump_pos q) (string_of_n (predict_hash p m))
         (string_of_n (calculate_hash q)) (string_of_n q0.hash) (b01 (validate q = None)) (fen_of q)
+        (sstate_str (apply (abs_state p) (dec p m))) (sstate_str (abs_state q)) (b01 (in_D q))
   | "play" ->
     let p0 = parse_fen f.(1) in
     let toks = if Array.length f > 2 && f.(2) <> "" then String.split_on_char ' ' f.(2) else [] in
@@ -237,6 +281,17 @@ let handle (line : string) : string =
     let (_, fs) = List.fold_left (fun (p, fs) t ->
         let q = if t = "null" then makenull p else makemove true p (mv_of_string t) in (q, fen_of q :: fs)) (p0, [fen_of p0]) toks in
     String.concat "|" (List.rev fs)
+  | "absdump" ->
+    let p = pos_of_dump f.(1) in
+    Printf.sprintf "abs=%s valid=%s inD=%s calc=%s" (sstate_str (abs_state p)) (b01 (valid_b p)) (b01 (in_D p)) (string_of_n (calculate_hash p))
+  | "specatt" ->
+    let p = parse_fen f.(1) in
+    let sqset us = List.fold_left (fun acc i -> if spec_attacked p (n_of_int i) us then Int64.logor acc (Int64.shift_left 1L i) else acc) 0L (List.init 64 (fun i -> i)) in
+    Printf.sprintf "sq_us=%Lu sq_them=%Lu" (sqset true) (sqset false)
+  | "leaves" ->
+    let p = parse_fen f.(1) in
+    string_of_z (leaves (nat_of_int (int_of_string f.(2))) (abs_state p))
+  | "inD" -> (match set_fen false false (str_of_string f.(1)) with Some p -> b01 (in_D p) | None -> "reject")
   | "valid" ->
     (match set_fen false false (str_of_string f.(1)) with Some _ -> "1" | None -> "0")
   | c -> failwith ("unknown command " ^ c)
